@@ -567,77 +567,125 @@ func hookPaths(r *Repo, info *types.Info, body *ast.BlockStmt, hide *ast.AssignS
 	return staleObj, !bad
 }
 
-// staleMarking: the map consulted by the hook is a parameter of the function that builds the loader.Config (load); the call of
-// that function in (*plugins).Load passes a map in which every loaded path is marked; calls that mark nothing come after the
-// Print of this run.
+// staleMarking: the map consulted by the hook is a parameter of the function that builds the loader.Config; following that
+// parameter up through the callers (a caller may pass its own parameter on), every call either passes nil — nothing is
+// hidden, so this run's Print must come before it — or a map in which every element of the list of paths that is loaded has
+// been marked; the marking call chain must start in (*plugins).Load, whose program the first pass of every package works on.
 func staleMarking(c *Ctx, h *staleHiding, owner *Body, staleObj types.Object, fail func(kind, msg string, pos token.Pos, undecided bool)) bool {
 	r := c.Repo
-	ownerFn := owner.Fn
+	var ownerFn *types.Func
+	if owner.Owner != nil && owner.Lit == nil {
+		ownerFn = owner.Owner.Fn
+	}
 	if ownerFn == nil {
 		fail("stale-owner", "the function that builds the loader.Config is not a declared function", owner.Block.Pos(), true)
 		return false
 	}
-	sig := ownerFn.Type().(*types.Signature)
-	staleIdx, pathsIdx := -1, -1
-	for i := 0; i < sig.Params().Len(); i++ {
-		p := sig.Params().At(i)
-		if p == staleObj {
-			staleIdx = i
-		}
-		if sl, ok := p.Type().Underlying().(*types.Slice); ok {
-			if b, ok := sl.Elem().Underlying().(*types.Basic); ok && b.Kind() == types.String {
-				pathsIdx = i
+	paramIdx := func(fn *types.Func, o types.Object) int {
+		sig := fn.Type().(*types.Signature)
+		for i := 0; i < sig.Params().Len(); i++ {
+			if sig.Params().At(i) == o {
+				return i
 			}
 		}
+		return -1
 	}
-	if staleIdx < 0 || pathsIdx < 0 {
-		fail("stale-owner", fmt.Sprintf("the set of stale paths consulted by the hook is not a parameter of %s next to the list of paths", funcKey(ownerFn)), owner.Block.Pos(), true)
+	idx := paramIdx(ownerFn, staleObj)
+	if idx < 0 {
+		fail("stale-owner", fmt.Sprintf("the set of stale paths consulted by the hook is not a parameter of %s", funcKey(ownerFn)), owner.Block.Pos(), true)
 		return false
 	}
-	ok := true
-	callers, marked := 0, 0
-	firstLoadMarked := false
-	for _, b := range r.bodies() {
-		if b.Pkg.Name != "derive" && b.Pkg.Name != "main" {
-			continue
-		}
-		info := b.Pkg.TypesInfo
-		inspectOwn(b.Block, func(m ast.Node) bool {
-			call, isCall := m.(*ast.CallExpr)
-			if !isCall || callee(info, call) != types.Object(ownerFn) {
-				return true
+	type site struct {
+		b    *Body
+		call *ast.CallExpr
+	}
+	callSites := func(fn *types.Func) []site {
+		var out []site
+		for _, b := range r.bodies() {
+			if b.Pkg.Name != "derive" && b.Pkg.Name != "main" {
+				continue
 			}
-			callers++
-			if call.Ellipsis.IsValid() || len(call.Args) != sig.Params().Len() {
-				fail("stale-call", b.Name+" calls "+funcKey(ownerFn)+" in a form the analysis does not follow", call.Pos(), true)
-				ok = false
-				return true
-			}
-			sa := ast.Unparen(call.Args[staleIdx])
-			if id, isID := sa.(*ast.Ident); isID && id.Name == "nil" {
-				// nothing is hidden: the derived file that is read must be this run's own output
-				if !printBefore(r, b, call) {
-					fail("fresh-load-before-print", b.Name+" loads a package with nothing marked stale although this run has not written its derived file yet: the derived.gen.go that is parsed is the previous output", call.Pos(), false)
-					ok = false
+			info := b.Pkg.TypesInfo
+			inspectOwn(b.Block, func(m ast.Node) bool {
+				if call, isCall := m.(*ast.CallExpr); isCall && callee(info, call) == types.Object(fn) {
+					out = append(out, site{b, call})
 				}
 				return true
+			})
+		}
+		return out
+	}
+	declared := func(b *Body) *types.Func {
+		if b.Owner != nil && b.Lit == nil {
+			return b.Owner.Fn
+		}
+		return nil
+	}
+	// freshOK: the call (which hides nothing) comes after this run's Print, in its own body or in every caller of its function
+	var freshOK func(st site, depth int) bool
+	freshOK = func(st site, depth int) bool {
+		if printBefore(r, st.b, st.call) {
+			return true
+		}
+		fn := declared(st.b)
+		if fn == nil || depth > 3 {
+			return false
+		}
+		cs := callSites(fn)
+		if len(cs) == 0 {
+			return false
+		}
+		for _, c2 := range cs {
+			if !freshOK(c2, depth+1) {
+				return false
 			}
+		}
+		return true
+	}
+	ok := true
+	sites, marked := 0, 0
+	firstLoadMarked := false
+	seen := map[string]bool{}
+	var follow func(fn *types.Func, idx int, depth int, viaLoad bool)
+	follow = func(fn *types.Func, idx int, depth int, viaLoad bool) {
+		k := fmt.Sprintf("%s#%d", funcKey(fn), idx)
+		if seen[k] || depth > 4 {
+			return
+		}
+		seen[k] = true
+		for _, st := range callSites(fn) {
+			sites++
+			b, call := st.b, st.call
+			info := b.Pkg.TypesInfo
+			if call.Ellipsis.IsValid() || idx >= len(call.Args) {
+				fail("stale-call", b.Name+" calls "+funcKey(fn)+" in a form the analysis does not follow", call.Pos(), true)
+				ok = false
+				continue
+			}
+			sa := ast.Unparen(call.Args[idx])
 			id, isID := sa.(*ast.Ident)
 			if !isID {
 				fail("stale-call", b.Name+" passes a set of stale paths the analysis does not follow: "+exprStr(sa), call.Pos(), true)
 				ok = false
-				return true
+				continue
+			}
+			if id.Name == "nil" && info.Uses[id] == types.Universe.Lookup("nil") {
+				if !freshOK(st, 0) {
+					fail("fresh-load-before-print", b.Name+" loads a package with nothing marked stale although this run has not written its derived file yet: the derived.gen.go that is parsed is the previous output", call.Pos(), false)
+					ok = false
+				}
+				continue
 			}
 			mObj := info.Uses[id]
-			pa, isP := ast.Unparen(call.Args[pathsIdx]).(*ast.Ident)
-			if !isP {
-				fail("stale-call", b.Name+" passes a list of paths the analysis does not follow: "+exprStr(call.Args[pathsIdx]), call.Pos(), true)
-				ok = false
-				return true
+			if dfn := declared(b); dfn != nil {
+				if pi := paramIdx(dfn, mObj); pi >= 0 {
+					follow(dfn, pi, depth+1, viaLoad)
+					continue
+				}
 			}
-			pObj := info.Uses[pa]
-			// for _, p := range paths { m[p] = true } with the assignment unconditional in the loop body, before the call
+			// a local map: for _, p := range P { m[p] = true }, unconditional, before the call; P is what is loaded
 			all := false
+			var ranged types.Object
 			inspectOwn(b.Block, func(k ast.Node) bool {
 				rs, isR := k.(*ast.RangeStmt)
 				if !isR || rs.Pos() > call.Pos() {
@@ -645,12 +693,12 @@ func staleMarking(c *Ctx, h *staleHiding, owner *Body, staleObj types.Object, fa
 				}
 				x, isX := ast.Unparen(rs.X).(*ast.Ident)
 				v, isV := rs.Value.(*ast.Ident)
-				if !isX || !isV || info.Uses[x] != pObj {
+				if !isX || !isV {
 					return true
 				}
 				vObj := info.Defs[v]
-				for _, st := range rs.Body.List {
-					as, isAs := st.(*ast.AssignStmt)
+				for _, stt := range rs.Body.List {
+					as, isAs := stt.(*ast.AssignStmt)
 					if !isAs || len(as.Lhs) != 1 || len(as.Rhs) != 1 {
 						continue
 					}
@@ -662,11 +710,36 @@ func staleMarking(c *Ctx, h *staleHiding, owner *Body, staleObj types.Object, fa
 					kid, isK := ast.Unparen(ix.Index).(*ast.Ident)
 					if isM && isK && info.Uses[mid] == mObj && info.Uses[kid] == vObj && constIsTrue(info, as.Rhs[0]) {
 						all = true
+						ranged = info.Uses[x]
 					}
 				}
 				return true
 			})
-			// nothing may unmark a path or replace the map between the loop and the call
+			// the ranged list is the list that is loaded: an argument of this call, or of a FromArgs call in this body
+			if all {
+				loaded := false
+				isRanged := func(e ast.Expr) bool {
+					pid, isP := ast.Unparen(e).(*ast.Ident)
+					return isP && info.Uses[pid] == ranged
+				}
+				for _, a := range call.Args {
+					if isRanged(a) {
+						loaded = true
+					}
+				}
+				inspectOwn(b.Block, func(k ast.Node) bool {
+					if cl, isC := k.(*ast.CallExpr); isC {
+						if sel, isS := cl.Fun.(*ast.SelectorExpr); isS && sel.Sel.Name == "FromArgs" && len(cl.Args) > 0 && isRanged(cl.Args[0]) {
+							loaded = true
+						}
+					}
+					return true
+				})
+				if !loaded {
+					all = false
+				}
+			}
+			// nothing may unmark a path between the loop and the call
 			inspectOwn(b.Block, func(k ast.Node) bool {
 				switch x := k.(type) {
 				case *ast.CallExpr:
@@ -692,20 +765,21 @@ func staleMarking(c *Ctx, h *staleHiding, owner *Body, staleObj types.Object, fa
 					firstLoadMarked = true
 				}
 			} else {
-				fail("not-all-paths-stale", b.Name+" does not mark every path it loads as stale (expected `for _, p := range "+pa.Name+" { "+id.Name+"[p] = true }` with the assignment unconditional): for an unmarked package the previous derived.gen.go is loaded", call.Pos(), false)
+				fail("not-all-paths-stale", b.Name+" does not mark every path it loads as stale (expected `for _, p := range paths { "+id.Name+"[p] = true }` with the assignment unconditional and the same list loaded): for an unmarked package the previous derived.gen.go is loaded", call.Pos(), false)
 				ok = false
 			}
-			return true
-		})
+		}
 	}
-	if callers < 2 {
-		fail("stale-callers", fmt.Sprintf("fewer calls of %s than confirmed by hand (the first load and the reload between passes)", funcKey(ownerFn)), owner.Block.Pos(), true)
+	follow(ownerFn, idx, 0, false)
+	if sites < 2 {
+		fail("stale-callers", fmt.Sprintf("fewer calls that reach %s than confirmed by hand (the first load and the reload between passes)", funcKey(ownerFn)), owner.Block.Pos(), true)
 		return false
 	}
 	if ok && !firstLoadMarked {
 		fail("first-load-not-stale", "the load in (*plugins).Load, whose program the first pass of every package works on, does not mark its paths as stale", owner.Block.Pos(), false)
 		return false
 	}
+	_ = marked
 	return ok
 }
 
